@@ -414,9 +414,12 @@ class CachedFcn(UserFcn):
             )
         ):
             return self.lastReturn
+        # only remember the arguments once the call has succeeded: if it raised, a retry with the same arguments must
+        # call the function again instead of returning the result remembered for the previous arguments
+        result = super().__call__(*args, **kwds)
         self.lastArgs = args
         self.lastKwds = kwds
-        self.lastReturn = super().__call__(*args, **kwds)
+        self.lastReturn = result
         return self.lastReturn
 
     def __repr__(self):
